@@ -24,13 +24,15 @@ void __CPROVER_assert(bool c, const char* m) noexcept { if (!c) { ++fails; print
 void __CPROVER_assume(bool c) noexcept { if (!c) { printf("NATIVE ASSUME FALSE\\n"); exit(3); } }
 void vf_witness(int) noexcept {} void vf_visible() noexcept {} void vf_spin_wait() noexcept {} void vf_check_leaks() noexcept {}
 void vf_observe(long) noexcept {} unsigned vf_self() noexcept { return 0; }
+void vf_wait_until_eq(const int*, int) noexcept {} void vf_thread_body(int) noexcept {} void vf_stop_here() noexcept {} void vf_join_all() noexcept {}
+unsigned long vf_clock() noexcept { return 0; } unsigned char vf_input(int) noexcept { return 0; }
 void %s();
 }
 int main() { %s(); printf(fails ? "NATIVE FAIL\\n" : "NATIVE OK\\n"); return fails ? 1 : 0; }
 ''' % (''.join('%dUL,' % v for _, _, v in inp), ''.join('%du,' % p for p in params), cfg['setup'], cfg['setup'])
 open(os.path.join(d, 'stub.cpp'), 'w').write(stub)
 out = []
-for cc, opt in (('clang++-14', '-O1'), ('g++', '-O2')):
+for cc, opt in ((('clang++-14', '-O1'), ('g++', '-O2')) if os.environ.get('VERIF_TIER') == 'thorough' else (('g++', '-O2'),)):
     cmd = [cc, '-std=' + cfg.get('std', 'c++17').replace('c++20', 'c++20'), opt, '-DUNIFEX_VERIF', '-I' + REPO + '/include', '-I' + ROOT + '/harness', '-I' + REPO, '-w',
            os.path.join(ROOT, 'harness', cfg['src']), os.path.join(d, 'stub.cpp')] + [e.replace('$REPO', REPO) for e in cfg.get('extra', [])] + ['-o', os.path.join(d, 'a.out'), '-lpthread']
     if not cfg.get('exc'): cmd.insert(1, '-fno-exceptions')
